@@ -215,6 +215,10 @@ mut("parser_shares_config_for_plain_sources", ["C08"], "newParser/post/private-c
     [("parser.go", "\treturn &parser{\n\t\tsource: source,\n\t\tconf:   CopyConfig(cc),\n\t}", "\tconf := cc\n\tif cc == nil || strings.Contains(source, \";;;;\") {\n\t\tconf = CopyConfig(cc)\n\t}\n\treturn &parser{\n\t\tsource: source,\n\t\tconf:   conf,\n\t}")], "sources without a directive are parsed with the caller's config")
 mut("formatter_literal_scan_reads_past_the_end", ["C14"], "IndentByParentheses/safety",
     [("util.go", "\t\t\tfor i++; i < len(A); i++ {\n\t\t\t\tsb.WriteRune(A[i])\n\t\t\t\tif A[i] == '\"' {", "\t\t\tfor i++; i <= len(A); i++ {\n\t\t\t\tsb.WriteRune(A[i])\n\t\t\t\tif A[i] == '\"' {")], "an unclosed literal makes the formatter read one rune past the end")
+mut("or_alias_double_bar_forgotten", ["C03"], "isOrOpNode/post/or-and-its-aliases",
+    [("compiler.go", '\treturn v == "or" || v == "|" || v == "||"', '\treturn v == "or" || v == "|"')], "operands of || are no longer recognised as operands of or")
+mut("slice_fetcher_set_off_by_one", ["C11"], "SliceVarFetcher.Set/",
+    [("variable.go", "\tif int(key) >= len(s) {\n\t\treturn fmt.Errorf(\"variableKey not exist %d\", key)\n\t}\n\ts[key] = val", "\tif int(key) > len(s) {\n\t\treturn fmt.Errorf(\"variableKey not exist %d\", key)\n\t}\n\ts[key] = val")], "Set accepts the key one past the end")
 # ---- probes of mechanisms that only the bounded tier covers
 mut("reduce_nesting_merges_any_bool_operator", ["C02"], "bnd/",
     [("compiler.go", "\t\tif isAndOpNode(cn) == rootOpType {\n\t\t\tchildren = append(children, child.children...)", "\t\tif isAndOpNode(cn) == rootOpType || len(child.children) == 2 {\n\t\t\tchildren = append(children, child.children...)")], "a two-operand or inside an and (or vice versa) is flattened into its parent")
